@@ -194,7 +194,8 @@ def constructFunction (t : Teal) (path : List Nat) : Except Err Function := do
   let usedSubs ← usedNames.mapM fun n =>
     match t.subs.find? (·.name == n) with | some s => pure s | none => .error "AttributeError"
   let mainBlocksF := mainKeys.filterMap fun k => blocks.find? (·.key == k)
-  let mainBlocksF := mainBlocksF.map fun b => { b with sub := fmainName }
+  -- predecessors that are not part of the function are dropped (repaired in /repo, known_findings F15 "fixed")
+  let mainBlocksF := mainBlocksF.map fun b => { b with sub := fmainName, prev := b.prev.filter mainKeys.contains }
   let allBlocks := mainBlocksF ++ usedSubs.flatMap fun s => s.blocks.map (subBlock s)
   let callersOf (name : String) : List Nat :=
     (allBlocks.filter fun b => b.calledSub == some name).map (·.key)
